@@ -137,6 +137,15 @@ def impl(case):
     res["p2w"] = [_vals(w.pixel_to_world_values, G.to_float_pt(p), nout) for p in case["pts"]]
     res["call"] = [_vals(w, G.to_float_pt(p), nout) for p in case["pts"]]
     res["ai2w"] = [_vals(w.array_index_to_world_values, G.to_float_pt(p)[::-1], nout) for p in case["pts"]]
+    # a pixel with one undefined (NaN) coordinate: undefined exactly on the world axes the transform computes from it
+    if case["pts"] and not case.get("box"):
+        nanpts = []
+        for j in range(nin):
+            q_ = G.to_float_pt(case["pts"][0])
+            q_[j] = float("nan")
+            nanpts.append(q_)
+        res["p2w_nan"] = [_vals(w.pixel_to_world_values, q_, nout) for q_ in nanpts]
+        res["call_nan"] = [_vals(f, q_, nout) for q_ in nanpts]
     res["p2w_out"] = [_vals(w.pixel_to_world_values, G.to_float_pt(p), nout) for p in case.get("pts_out", [])]
     res["call_out"] = [_vals(w, G.to_float_pt(p), nout) for p in case.get("pts_out", [])]
     res["w2p"] = [_vals(w.world_to_pixel_values, G.to_float_pt(p), nin) for p in case["world"]]
@@ -208,7 +217,8 @@ def _d51(case):
     if case.get("kind") != "api":
         return False
     fs = case["frames"]
-    return bool(fs[0].get("unit") and fs[-1].get("unit") and fs[0]["unit"] != fs[-1]["unit"] and all(G.paramless(t) for t in case["trs"]))
+    return bool(fs[0].get("unit") and fs[-1].get("unit") and fs[0]["unit"] != fs[-1]["unit"] and
+                (all(G.paramless(t) for t in case["trs"]) or all(G.paramless_inverse(t) for t in case["trs"])))
 
 
 def _d36(case):
@@ -295,6 +305,9 @@ def _oracle(case, res):
             if a["ok"] != want:
                 out.append(("w2ai", "world_to_array_index_values(%s) = %s, nearest pixel centres of the reversed pixel position %s are %s" %
                             (p, a["ok"], b["ok"], want)))
+    if res.get("p2w_nan") != res.get("call_nan"):
+        out.append(("nan_coordinate", "pixel_to_world_values of a pixel with one NaN coordinate gives %s, plain evaluation of the transform %s" %
+                    (res.get("p2w_nan"), res.get("call_nan"))))
     if res.get("w2ai_mix", "ok") != "ok":
         out.append(("w2ai_mix", "world_to_array_index_values with a scalar first coordinate and array others: %s" % res["w2ai_mix"]))
     if not res["w2ai_int"]:
